@@ -393,7 +393,11 @@ Definition enc_action (a : action) : list N :=
 
 Definition dispatch_c15 (tag : N) (a : LL) : LL :=
   match tag with
-  | 1501 => map enc_action (run_script (negb (argn a 0 0 =? 0)) initial_client (dec_cevents (skipn 1 a)))
+  | 1501 => map enc_action (filter (fun x => match x with
+                                             | AReturn _ => false
+                                             | AUnconfigure t | AUp t | ASetIface t _ _ | AExchange t _ | ACrash t => (t <=? Z.of_N (argn a 0 1))%Z
+                                             end)
+                             (run_script (negb (argn a 0 0 =? 0)) initial_client (dec_cevents (skipn 1 a))))
   | 1502 => [map zn (delays (Z.of_N gf_retx_first_ns) (map Z.of_N (arg a 0)))]
   | _ => [[99]]
   end.
